@@ -2588,11 +2588,16 @@ void Analyser::AnalyserImpl::analyseModel(const ModelPtr &model)
         for (const auto &externalVariable : mExternalVariables) {
             auto variable = externalVariable->variable();
 
+            if (variable == nullptr) {
+                continue;
+            }
+
             if (owningModel(variable) != model) {
                 auto issue = Issue::IssueImpl::create();
+                auto component = owningComponent(variable);
 
                 issue->mPimpl->setDescription("Variable '" + variable->name()
-                                              + "' in component '" + owningComponent(variable)->name()
+                                              + "' in component '" + ((component != nullptr) ? component->name() : std::string())
                                               + "' is marked as an external variable, but it belongs to a different model and will therefore be ignored.");
                 issue->mPimpl->setLevel(Issue::Level::MESSAGE);
                 issue->mPimpl->setReferenceRule(Issue::ReferenceRule::ANALYSER_EXTERNAL_VARIABLE_DIFFERENT_MODEL);
@@ -3303,6 +3308,7 @@ AnalyserExternalVariablePtrs::const_iterator Analyser::AnalyserImpl::findExterna
         auto variable = ev->variable();
 
         return (owningModel(variable) == model)
+               && (owningComponent(variable) != nullptr)
                && (owningComponent(variable)->name() == componentName)
                && (variable->name() == variableName);
     });
@@ -3394,7 +3400,8 @@ void Analyser::analyseModel(const ModelPtr &model)
 
 bool Analyser::addExternalVariable(const AnalyserExternalVariablePtr &externalVariable)
 {
-    if (std::find(pFunc()->mExternalVariables.begin(), pFunc()->mExternalVariables.end(), externalVariable) == pFunc()->mExternalVariables.end()) {
+    if ((externalVariable != nullptr)
+        && (std::find(pFunc()->mExternalVariables.begin(), pFunc()->mExternalVariables.end(), externalVariable) == pFunc()->mExternalVariables.end())) {
         pFunc()->mExternalVariables.push_back(externalVariable);
 
         return true;
